@@ -448,3 +448,30 @@ Definition compile_source (fuel : nat) (src : chars) : cres program :=
       | CPanic => CPanic | CFuel => CFuel | CUnmod => CUnmod | CSyntax l => CSyntax l
       end
   end.
+
+(** The implementation refuses an expression with more than 1024 binary operators
+    (MAX_BINARY_OPERATORS; f-string segments count towards their expression).  The model does
+    not thread that counter through the parser: a source that could exceed the bound is declared
+    outside the model.  The count used here can only be too high (every operator token of the
+    source, prefix operators included, plus every character of an f-string segment), so a source
+    the model does compile is one the implementation does not refuse for this reason. *)
+Definition max_binary_operators : Z := 1024.
+Definition is_operator_token (t : token) : bool :=
+  match t with
+  | TAdd | TMinus | TMultiply | TDivide | TMod | TLessThan | TGreaterThan | TOrOr | TAndAnd
+  | TLessEqual | TGreaterEqual | TEqualEqual | TNotEqual | TIn => true
+  | _ => false
+  end.
+Definition token_operator_bound (t : token) : Z :=
+  match t with
+  | TFStringLit segs =>
+      fold_left (fun acc sg => match sg with FExpr s => acc + Z.of_nat (length s) | FLit _ => acc end) segs 0
+  | _ => if is_operator_token t then 1 else 0
+  end.
+Definition operator_bound (src : chars) : Z :=
+  match lex src with
+  | LOk toks _ => fold_left (fun acc t => acc + token_operator_bound (t_tok t)) toks 0
+  | _ => 0
+  end.
+Definition compile_checked (fuel : nat) (src : chars) : cres program :=
+  if max_binary_operators <? operator_bound src then CUnmod else compile_source fuel src.
